@@ -121,7 +121,7 @@ def run(chk):
     chk.rule = RULE
     chk.assumptions = ["'terminates without crashing at any size' is a statement about the interpreter's stack: the theorems prove termination and "
                        "the verdict of the model for every size; the real code is run on chains of 3 000 (quick) / 20 000 (thorough) targets",
-                       "'no command submits, deletes or touches anything on an invalid workflow' is checked at CLI level by the C05/C15/C16 correspondences"]
+                       "invalid-workflow histories run the real CLI (status, dry-run, run, touch, clean, cancel) against a simulated Slurm cluster"]
     for fn, data in common.load_corpus("C04"):
         check_sets(chk, [data["input"] if "input" in data else data], "corpus")
     rng = chk.rng
@@ -135,6 +135,10 @@ def run(chk):
     for k in range(0, len(projs), 25000):
         check_sets(chk, projs[k:k + 25000], "random")
     depth_runs(chk, 3000 if chk.tier == "quick" else 20000)
+    # CLI level: every command on an invalid workflow fails with the graph's error and changes nothing
+    import history_check as HC
+    rule, assume = chk.rule, chk.assumptions
+    HC.run_prop(chk, "C04", ["invalid"], 64 if chk.tier == "quick" else 600, rule, assume, lambda r: True)
     for v in ("ok", "multi", "unresolved", "cycle"):
         if chk.counters.get("verdict:" + v, 0) < 20:
             raise common.Broken("degenerate generator: verdict %s hardly reached" % v)
